@@ -370,6 +370,25 @@ def rule_R3(ctx):
               "incremental extractor does not reuse the one-shot extraction over the buffered frames", ctx.loc(b))
 
 
+def rule_R5(ctx):
+    """R3/R2 extras: reset() restores the whole extractor; the pseudo-header order looks at every header of the block"""
+    from . import _reset as RS
+    P = ctx.program
+    RS.reset_complete(ctx, P, "R3", "Http2FingerprintExtractor")
+    b = P.body("huginn_net_http::akamai_extractor::extract_pseudo_header_order")
+    bad = []
+    n = 0
+    for cb in [b] + P.closures_of(b.path):
+        for blk, t in cb.calls():
+            nm = callee_of(t)
+            n += 1
+            if nm.endswith(("::take_while", "::skip_while", "::take", "::skip", "::step_by", "::nth", "::last", "::map_while", "::next_back", "::rev")):
+                bad.append((cb, blk, T.short(nm)))
+    ctx.check(not bad and n >= 2, "R2", "pseudo-header-order:whole-block", "every header of the first request HEADERS block is examined (filter, no truncation)",
+              "the pseudo-header order is collected through %s: pseudo-headers that follow a regular header (or fall outside the cut) are missing from the PS part"
+              % ",".join(x[2] for x in bad), ctx.loc(bad[0][0], bad[0][1]) if bad else ctx.loc(b))
+
+
 def rule_R4(ctx):
     C16.rule_R1_R2(ctx, "akamai", ("extract_pseudo_header_order", "decode_headers"), "akamai_extractor")
     # the frame splitter the extractor relies on: header offsets, reserved bit of the stream id masked (stream 0 selectors depend on it)
@@ -387,4 +406,5 @@ def run(ctx):
     rule_R1(ctx)
     rule_R2(ctx)
     rule_R3(ctx)
+    rule_R5(ctx)
     rule_R4(ctx)
